@@ -629,7 +629,7 @@ class FnTrans:
             if cname.startswith(INTRIN_SKIP): return
             base = cname.split('.')[1]
             if base == 'memcpy': O(f"  memcpy((void*){av[0]}, (const void*){av[1]}, {av[2]});"); return
-            if base == 'memmove': O(f"  memmove((void*){av[0]}, (const void*){av[1]}, {av[2]});"); return
+            if base == 'memmove': O(f"  ir_memmove((void*){av[0]}, (const void*){av[1]}, {av[2]});"); return
             if base == 'memset': O(f"  memset((void*){av[0]}, (int){av[1]}, {av[2]});"); return
             if base in MATH1 and MODEL == 'ie': ret(f"ie_{base}({av[0]})"); return
             if base == 'fmuladd' and MODEL == 'ie': ret(f"ie_add(ie_mul({av[0]}, {av[1]}), {av[2]})"); return
